@@ -62,7 +62,7 @@ var units = []struct {
 		p(strconv.Quote(string(reflect.TypeOf(v).Field(0).Tag)))
 	}},
 	{"functags", func() {
-		for _, t := range []reflect.Type{reflect.TypeOf(q.WithFunc{}), reflect.TypeOf(q.HoldsNF{}), reflect.TypeOf(q.Tagged{})} {
+		for _, t := range []reflect.Type{reflect.TypeOf(q.WithFunc{}), reflect.TypeOf(q.HoldsNF{}), reflect.TypeOf(q.Tagged{}), reflect.TypeOf(q.TP[func()]{}), reflect.TypeOf(q.TP[int]{})} {
 			for i := 0; i < t.NumField(); i++ {
 				p(t.String() + " " + t.Field(i).Name + " tag=" + strconv.Quote(string(t.Field(i).Tag)))
 			}
@@ -238,6 +238,13 @@ var units = []struct {
 		p("native nil: " + b2s(b == nil) + b2s(r == nil))
 		v := reflect.ValueOf(e).Convert(reflect.TypeOf([]byte(nil)))
 		p("reflect nil: " + b2s(v.IsNil()) + " len=" + strconv.Itoa(v.Len()))
+	}},
+	{"typearg", func() {
+		p(tl(reflect.TypeOf(q.Box[q.SArg]{})))
+		p(tl(reflect.TypeOf(q.Box[[]struct{ X, Y int8 }]{})))
+		p(tl(reflect.TypeOf(q.Box[func(int) string]{})))
+		p(tl(reflect.TypeOf(q.Box[interface{ M() }]{})))
+		p(tl(reflect.TypeOf(q.Box[map[string]*q.Tagged]{})))
 	}},
 	{"chanparen", func() {
 		p(reflect.TypeOf((chan (<-chan int))(nil)).String())
